@@ -252,41 +252,54 @@ def killCheck (s : JobList) (arg : Str) : Option String :=
 def selectedIdx (s : JobList) (pred : Nat → Job → Bool) : List Nat :=
   (occupied s.entries).filter fun i => match gets s.entries i with | some j => pred i j | none => false
 
+/-- slot by slot: a selected job is gone, any other job is the same job (`state_changed` cleared iff the closure
+    reports and the iterator got that far), a vacant slot stays vacant -/
+def slotsOk (s s' : JobList) (sel : List Nat) (report : Bool) (visited : Nat → Bool) : Bool :=
+  (List.range (max s.entries.length s'.entries.length)).all fun i =>
+    gets s'.entries i ==
+      (match gets s.entries i with
+       | none => none
+       | some j => if sel.contains i then none
+                   else some (if report && visited i then { j with changed := false } else j))
+
+/-- `remove`: a current job that stays is still the current job; if it goes and the previous job stays, that one is
+    the current job; if both stay the previous job stays -/
+def curRule (s s' : JobList) (sel : List Nat) : Option String :=
+  match s.currentJob with
+  | none => none
+  | some c =>
+    if !sel.contains c then
+      if s'.currentJob != some c then some "rmif-current"
+      else match s.previousJob with
+        | some p => if !sel.contains p && s'.previousJob != some p then some "rmif-previous" else none
+        | none => none
+    else match s.previousJob with
+      | some p => if !sel.contains p && s'.currentJob != some p then some "rmif-current" else none
+      | none => none
+
+/-- where an iterator advanced `n` times stops: behind its `n`-th removal (`none`: it ran to the end) -/
+def takeCut (selAll : List Nat) (n : Nat) : Option Nat :=
+  if n = 0 then some 0 else if selAll.length < n then none else (selAll.take n).getLast?.map (· + 1)
+
+/-- has the iterator got as far as slot `i`? -/
+def visitedAt (cut : Option Nat) (i : Nat) : Bool :=
+  match cut with | some c => decide (i < c) | none => true
+
 /-- `remove_if` (`take = none`, `returned = none`), `extract_if` drained (`returned` = what the iterator yielded)
     or advanced `n` times and dropped (`take = some n`): the selected jobs (the first `n` of them) are gone and are
     what was yielded; every other job is in its slot unchanged, `state_changed` cleared iff the closure reports
-    and the iterator got that far ("the remaining jobs are retained in the list"); nothing is added; `remove`:
-    a current job that stays is still the current job, if it goes and the previous job stays that one is the
-    current job, if both stay the previous job stays; `$!` is not touched. -/
+    and the iterator got that far ("the remaining jobs are retained in the list"); nothing is added; the
+    current / previous rule of `remove`; `$!` is not touched. -/
 def removalSpec (s s' : JobList) (pred : Nat → Job → Bool) (report : Bool) (take : Option Nat)
     (returned : Option (List Nat)) : Option String :=
   let selAll := selectedIdx s pred
   let sel := match take with | some n => selAll.take n | none => selAll
-  let cut : Option Nat := match take with
-    | none => none
-    | some n => if n = 0 then some 0 else if selAll.length < n then none else sel.getLast?.map (· + 1)
-  let visited : Nat → Bool := fun i => match cut with | some c => decide (i < c) | none => true
-  let n := max s.entries.length s'.entries.length
-  if !(List.range n).all (fun i =>
-        gets s'.entries i ==
-          (match gets s.entries i with
-           | none => none
-           | some j => if sel.contains i then none
-                       else some (if report && visited i then { j with changed := false } else j))) then some "rmif-table"
+  let cut : Option Nat := match take with | none => none | some n => takeCut selAll n
+  let visited : Nat → Bool := visitedAt cut
+  if !slotsOk s s' sel report visited then some "rmif-table"
   else if returned.isSome && returned != some sel then some "rmif-result"
   else if s'.lastAsync != s.lastAsync then some "rmif-async"
-  else
-    match s.currentJob with
-    | none => none
-    | some c =>
-      if !sel.contains c then
-        if s'.currentJob != some c then some "rmif-current"
-        else match s.previousJob with
-          | some p => if !sel.contains p && s'.previousJob != some p then some "rmif-previous" else none
-          | none => none
-      else match s.previousJob with
-        | some p => if !sel.contains p && s'.currentJob != some p then some "rmif-current" else none
-        | none => none
+  else curRule s s' sel
 
 /-- the visible table: slots, current and previous job, `$!`, the pid index of every job -/
 def sameTable (a b : JobList) : Bool :=
